@@ -241,6 +241,14 @@ def check_helpers(ctx, store, pg, g):
 
     def bad(key, clause, q, exp, got):
         ctx.violation(key, clause, {'store': store, 'graph': gd, 'query': q, 'expected': exp, 'got': got})
+
+    def via_unfiltered_rel2(s, r1, c1, c2, exp, got):
+        """True if `got` is exactly what the two-hop query returns when its second relation filter is not applied
+        (the mechanism of C06/two-hop-second-relation-not-filtered) and differs from exp only by that."""
+        if not isinstance(got, list):
+            return False
+        loose = sorted(c for b in g.first(s, r1, c1) for c in g.adj[b] if g.cls[c] == c2 and c != s)
+        return sorted(got) == loose and sorted(got) != sorted(exp)
     for s in g.ids:
         c = g.cls[s]
         # peers over a Link
@@ -249,14 +257,20 @@ def check_helpers(ctx, store, pg, g):
         ctx.count('q:find_peer_connection_points')
         ctx.seen([gd, 'peer', s], bool(exp))
         got = r[1] if r[0] == 'ok' else r
-        if r[0] != 'ok' or (sorted(got) if got is not None else None) != (sorted(exp) if exp else None):
+        if r[0] == 'ok' and via_unfiltered_rel2(s, 'connects', 'Link', 'ConnectionPoint', exp, got):
+            bad('C06/two-hop-second-relation-not-filtered', 'peers of a connection point over a Link (derived from the two-hop query)',
+                {'q': 'find_peer_connection_points', 'node': s}, exp or None, got)
+        elif r[0] != 'ok' or (sorted(got) if got is not None else None) != (sorted(exp) if exp else None):
             bad('C06/find-peer-connection-points-wrong', 'peers of a connection point over a Link (None if there are none)',
                 {'q': 'find_peer_connection_points', 'node': s}, exp or None, got)
         exp = [x[1] for x in g.two_hop(s, 'has', 'NetworkService', 'connects', 'ConnectionPoint')]
         r = call(pg.get_all_node_or_component_connection_points, parent_node_id=s)
         ctx.count('q:node_or_component_cps')
         legal = c in ('NetworkNode', 'Component', 'CompositeNode')
-        if legal != (r[0] == 'ok') or (legal and sorted(r[1]) != sorted(exp)):
+        if legal and r[0] == 'ok' and via_unfiltered_rel2(s, 'has', 'NetworkService', 'ConnectionPoint', exp, r[1]):
+            bad('C06/two-hop-second-relation-not-filtered', 'interfaces of a node/component via its services (derived from the two-hop query)',
+                {'q': 'node_or_component_cps', 'node': s}, exp, r[1])
+        elif legal != (r[0] == 'ok') or (legal and sorted(r[1]) != sorted(exp)):
             bad('C06/node-or-component-cps-wrong', 'interfaces of a node/component via its services; other classes are refused',
                 {'q': 'node_or_component_cps', 'node': s}, exp if legal else 'raise', r[1])
         exp = g.first(s, 'connects', 'ConnectionPoint')
